@@ -148,6 +148,10 @@ func runC12(c *core.Ctx) {
 	// ---------------- R1
 	n := checkTxnThreading(c, "C12-R1", "write")
 	c.Min("C12-R1", n, 7, "storage write calls in eth/eventhandler")
+	// … and the storage layer really uses the handle it is given: a write issued on the Database
+	// itself commits at once, outside the block transaction (it survives the rollback of a block
+	// that is then re-delivered)
+	c.Min("C12-R1", checkNoHandleBypass(c, "C12-R1"), 10, "data accesses in registry/operator storage functions that take a handle")
 
 	// ---------------- R2
 	pbe := ehPkg + ".(*EventHandler).processBlockEvents"
@@ -207,6 +211,17 @@ func runC12(c *core.Ctx) {
 		})
 	}
 	c.Min("C12-R3", k, 3, "deletions in ekm.RemoveShare")
+	// "account not found" is the idempotent case, not an error: a block whose key-manager effect
+	// already happened before a crash must be re-appliable (otherwise the node is stuck on it)
+	for _, x := range []struct{ fn, lookup string }{
+		{ekmRm, "eth2-key-manager/core.Wallet.AccountByPublicKey(p0.wallet, p1)"},
+		{ekmAdd, "eth2-key-manager/core.Wallet.AccountByPublicKey(p0.wallet, github.com/herumi/bls-eth-go-binary/bls.PublicKey.SerializeToHexStr(github.com/herumi/bls-eth-go-binary/bls.SecretKey.GetPublicKey(p1)))"},
+	} {
+		nx := ensuresIf(c, "C12-R3", x.fn, "err=nonnil", "the existence lookup failed", "fail("+x.lookup+")", []Req{
+			{"not-found-is-not-an-error", "ne(\"account not found\", .error.Error(" + x.lookup + "#1))", "a missing account must lead to the no-op success path"},
+		})
+		c.Min("C12-R3", nx, 1, "lookup-failure exit of "+short(x.fn))
+	}
 
 	// ---------------- R4
 	checkResumePoint(c)
